@@ -30,6 +30,10 @@ pub struct TcpRun {
     pub mains_finished: (bool, bool),
     pub stall_dump: String,
     pub end_dump: String,
+    /// the same counts taken when every flow had ended but before the harness peers let go of their sockets
+    pub mid_sockets: Option<[(usize, usize, usize); 2]>,
+    pub mid_tasks: Option<[i64; 2]>,
+    pub mid_dump: String,
 }
 
 pub fn install_zone(plan: &Plan) {
@@ -54,8 +58,8 @@ pub fn flow_complete(f: &TcpFlow, ix: usize, o: &FlowObs) -> bool {
     match f.ending {
         Ending::None => (o.app.script_done && o.target.script_done && o.app.recv.len() >= f.down_total() && o.target.recv.len() >= expected_up(f, ix).len()) || (o.app.end.is_some() && (o.target.end.is_some() || o.target_accepts == 0)),
         _ if f.target_fault.is_some() => o.app.end.is_some() || o.app.closed_ns.is_some(),
-        Ending::AppAfterWrite | Ending::AppAfterAll | Ending::AppReset | Ending::AppAbandon => o.app.closed_ns.is_some() && o.target.end.is_some(),
-        Ending::TargetAfterWrite | Ending::TargetAfterAll | Ending::TargetReset | Ending::TargetAbandon => o.target.closed_ns.is_some() && o.app.end.is_some(),
+        Ending::AppAfterWrite | Ending::AppAfterAll | Ending::AppReset | Ending::AppAbandon | Ending::AppResetAfterWrite => o.app.closed_ns.is_some() && o.target.end.is_some(),
+        Ending::TargetAfterWrite | Ending::TargetAfterAll | Ending::TargetReset | Ending::TargetAbandon | Ending::TargetResetAfterWrite => o.target.closed_ns.is_some() && o.app.end.is_some(),
     }
 }
 
@@ -107,6 +111,9 @@ async fn run_tcp_system_inner(plan: &Plan, atomic_handshake: bool, via_port: u16
         mains_finished: (false, false),
         stall_dump: String::new(),
         end_dump: String::new(),
+        mid_sockets: None,
+        mid_tasks: None,
+        mid_dump: String::new(),
     };
     let mains = match start_system(&plan.config, "127.0.0.1", via_port).await {
         Ok(m) => m,
@@ -154,6 +161,18 @@ async fn run_tcp_system_inner(plan: &Plan, atomic_handshake: bool, via_port: u16
     }
     if run.timed_out {
         run.stall_dump = dump_conns();
+    } else {
+        // every flow has ended at both of its ends while the peers that did not close still hold their sockets:
+        // the proxies must have let go of everything already (release must not wait for the second peer to close)
+        let ended = |o: &FlowObs| (o.app.end.is_some() || o.app.closed_ns.is_some()) && (o.target.end.is_some() || o.target.closed_ns.is_some() || o.target_accepts == 0);
+        if plan.flows.iter().enumerate().all(|(ix, f)| skipped(f) || ended(&obs[ix].lock().unwrap())) {
+            tokio::time::sleep(Duration::from_secs(if plan.config.transport == Transport::Quic { 50 } else { 20 })).await;
+            run.mid_sockets = Some(world::with(|w| [w.open_sockets(rt::NODE_CLIENT), w.open_sockets(rt::NODE_SERVER)]));
+            run.mid_tasks = Some([rt::alive_tasks_of(rt::NODE_CLIENT), rt::alive_tasks_of(rt::NODE_SERVER)]);
+            if run.mid_sockets != Some(run.idle_sockets) {
+                run.mid_dump = dump_conns();
+            }
+        }
     }
     // grace period: let teardown finish everywhere
     for t in &tasks {
@@ -236,6 +255,8 @@ pub fn ending_name(e: Ending) -> &'static str {
         Ending::TargetReset => "target-reset",
         Ending::AppAbandon => "app-abandon",
         Ending::TargetAbandon => "target-abandon",
+        Ending::AppResetAfterWrite => "app-reset-after-write",
+        Ending::TargetResetAfterWrite => "target-reset-after-write",
     }
 }
 
@@ -293,7 +314,7 @@ pub fn check_c01(plan: &Plan, run: &TcpRun, w: &world::World) -> Vec<Violation> 
             Ending::TargetAfterWrite => (false, true, true, false),
             Ending::AppAfterAll => (true, true, false, true),
             Ending::AppAfterWrite => (true, false, false, true),
-            Ending::AppReset | Ending::TargetReset | Ending::AppAbandon | Ending::TargetAbandon => (false, false, false, false),
+            Ending::AppReset | Ending::TargetReset | Ending::AppAbandon | Ending::TargetAbandon | Ending::AppResetAfterWrite | Ending::TargetResetAfterWrite => (false, false, false, false),
         };
         // was the opposite direction still moving when this one ended? (qualifies the teardown-race finding)
         let down_active = !down_complete || !o.target.script_done;
